@@ -81,6 +81,11 @@ def configs(tier, seed):
     for kind in KINDS:
         for lt, bad in (("NormalLifetime", "mean"), ("FoldedNormalLifetime", "mean"), ("WeibullLifetime", "weibull_shape")):
             out.append(dict(h="failed_compute", op=kind + lt, key=f"failed_compute/{kind}/{lt}/negative_{bad}", kind=kind, lt=lt, bad=bad, n=3))
+    # a set_prms call that raises (its last parameter has a shape that cannot be cast) changes nothing: the model holds the
+    # parameters it held before, and computing gives what those parameters give
+    for kind in ("idsm", "sdsm_manual"):
+        for lt in ("NormalLifetime", "LogNormalLifetime", "WeibullLifetime"):
+            out.append(dict(h="failed_set_prms", op=kind + lt, key=f"failed_set_prms/{kind}/{lt}", kind=kind, lt=lt, n=3))
     for lt in REAL:
         for order in ("ab", "ba"):
             out.append(dict(h="definition_system", op=lt, key=f"definition_system/{lt}/set_prms_order={order}", kind="idsm", lt=lt, n=3, order=order))
@@ -173,6 +178,30 @@ def run(cfg, w):
     shape = dims.shape
     if cfg["h"] == "definition_system":
         return _definition_system(cfg, w, dims)
+    if cfg["h"] == "failed_set_prms":
+        P0, P1 = _prms(w, lt, "p0"), _prms(w, lt, "p1")
+        driver = w.arr("d0", shape)
+        model = getattr(lm, lt)(dims=dims, **P0)
+        st = dsm.build_stock(kind, dims, lifetime=model, **({"inflow": driver} if kind == "idsm" else {"stock": driver}))
+        st.compute()
+        held = {k_: np.array(getattr(st.lifetime_model, k_), dtype=object).copy() for k_ in REAL[lt]}
+        bad = dict(P1)
+        bad[REAL[lt][-1]] = np.ones((n + 4,))  # cannot be cast to the model's shape
+        try:
+            st.lifetime_model.set_prms(**bad)
+            w.ob("set_prms_refuses_the_uncastable_parameter", False)
+        except Exception:
+            w.ob("set_prms_refuses_the_uncastable_parameter", True)
+        for k_ in REAL[lt]:
+            now = np.array(getattr(st.lifetime_model, k_), dtype=object)
+            ok = now.shape == held[k_].shape
+            w.ob(f"failed_set_prms_leaves_{k_}_shape", ok)
+            if ok:
+                for idx in np.ndindex(*now.shape):
+                    w.ob(f"failed_set_prms_leaves_{k_}{list(idx)}", w.same(now[idx], held[k_][idx]))
+        st.compute()
+        _compare(w, "compute_after_failed_set_prms", _results(st), _fresh(kind, dims, lt, P0, driver))
+        return
     if cfg["h"] == "failed_compute":
         P_bad = _prms(w, lt, "p0")
         neg = w.real("refused_value", default=-1.5)
